@@ -475,7 +475,7 @@ class RefParser:
             n = Ite(n < 0, 0, n)
             if es:
                 # more elements than fit is EOF whatever the exact count
-                fit = (len(data) - pos) // es
+                fit = max(0, (len(data) - pos) // es)
                 if rt.decide_bool(n > fit):
                     raise RefEOF("array count exceeds input")
             n = rt.concretize(n)
